@@ -22,6 +22,14 @@ def run(tier):
     # directed: ONE producer expands the buffer several times while the consumer is busy in the sink: strict emission order afterwards
     for data, rows in ((2, 20), (4, 30), (4, 60), (8, 50)):
         scen.append({"strategy": "expand", "data": data, "max": 128, "mininc": 2, "producers": 1, "rows": rows, "stalled": True})
+    # directed: the buffer is expanded (its rows migrated) while the consumer is in the middle of draining it; the consumer reads the
+    # buffer reference once per row, so at most one row per installed buffer is taken early (the recorded deviation's exact shape)
+    for data, rows in ((512, 1500), (1024, 3000)) + (() if quick else ((4096, 9000), (2048, 6000), (8192, 14000))):
+        for rep in range(3 if quick else 6):
+            scen.append({"strategy": "expand", "data": data, "max": 1 << 20, "mininc": 2, "producers": 1, "rows": rows, "drainrace": True, "rep": rep})
+    # ExpansionConfig.ExpansionTimeout set to a very small / a large value: every buffered row is still processed or counted as dropped
+    for data, rows, tmo in ((16, 400, 1), (64, 2000, 1), (1024, 3000, 1000), (16, 400, 3600 * 10**9)):
+        scen.append({"strategy": "expand", "data": data, "max": 1 << 16, "mininc": 2, "producers": 1, "rows": rows, "stalled": True, "exptimeout_ns": tmo})
     # free-running
     for i in range(40 if quick else 1500):
         strat = ["expand", "drop", "block"][i % 3]
